@@ -399,6 +399,25 @@ fn convert_checks<T: CoordNum + std::fmt::Debug>(kind: u8, v: &[Coord<T>], rect:
             if back.ok() != Some(*rect) {
                 obs.fail(format!("{tname}|Rect->Geometry->Rect|roundtrip"), format!("op {i}: {:?}", rect));
             }
+            // to_lines walks the same ring as to_polygon; the deprecated try_new equals new (whatever the corner order)
+            let tp = rect.to_polygon();
+            let want_lines: Vec<Line<T>> = tp.exterior().0.windows(2).map(|w| Line::new(w[0], w[1])).collect();
+            obs.cmp();
+            if rect.to_lines().to_vec() != want_lines {
+                obs.fail(format!("{tname}|Rect::to_lines|differs-from-to_polygon"), format!("op {i}: {:?} -> {:?}", rect, rect.to_lines()));
+            }
+            #[allow(deprecated)]
+            let tn = Rect::try_new(g(0), g(1));
+            obs.cmp();
+            if tn.ok() != Some(Rect::new(g(0), g(1))) {
+                obs.fail(format!("{tname}|Rect::try_new|differs-from-new"), format!("op {i}: {:?} {:?}", g(0), g(1)));
+            }
+            // Line from a pair of tuples
+            let lf: Line<T> = Line::from([(g(0).x, g(0).y), (g(1).x, g(1).y)]);
+            obs.cmp();
+            if lf != Line::new(g(0), g(1)) {
+                obs.fail(format!("{tname}|Line::from([(x,y);2])|coords"), format!("op {i}: {:?}", lf));
+            }
         }
         1 => {
             // Triangle::new is documented to re-order its vertices counter-clockwise; the conversion must
@@ -563,6 +582,20 @@ impl Property for C18 {
             run::<i32>(c, obs, &|v| v as i32, "i32");
         } else {
             run::<f64>(c, obs, &|v| v as f64 * 0.5, "f64");
+            // float only: the halves of a split Rect are Rects (min <= max), share the cut line and cover the original
+            for op in &c.ops {
+                if let Op::RectNew(a, b) = op {
+                    let r = Rect::new(Coord { x: a.0 as f64 * 0.5, y: a.1 as f64 * 0.5 }, Coord { x: b.0 as f64 * 0.5, y: b.1 as f64 * 0.5 });
+                    let ([l, rr], [bt, tp]) = (r.split_x(), r.split_y());
+                    obs.cmp();
+                    let ok = |q: &Rect<f64>| q.min().x <= q.max().x && q.min().y <= q.max().y;
+                    let okx = ok(&l) && ok(&rr) && l.min() == r.min() && rr.max() == r.max() && l.max().x == rr.min().x && l.max().y == r.max().y && rr.min().y == r.min().y && l.max().x == (r.min().x + r.max().x) / 2.0;
+                    let oky = ok(&bt) && ok(&tp) && bt.min() == r.min() && tp.max() == r.max() && bt.max().y == tp.min().y && bt.max().x == r.max().x && tp.min().x == r.min().x && bt.max().y == (r.min().y + r.max().y) / 2.0;
+                    if !okx || !oky {
+                        obs.fail("f64|Rect::split_x/split_y|halves".to_string(), format!("{:?} -> {:?} {:?} / {:?} {:?}", r, l, rr, bt, tp));
+                    }
+                }
+            }
         }
     }
 }
